@@ -105,6 +105,7 @@ struct Delivered {
     token: Vec<u8>,
     pn: u64,
     kp: Option<u8>,
+    spin: Option<u8>,
     body: Vec<u8>,
 }
 
@@ -176,6 +177,7 @@ fn receive(dgram: &[u8], dcid_len: usize, rx: &Receiver) -> (Vec<Got>, Option<u8
                         token,
                         pn: plain.pn(),
                         kp: None,
+                        spin: None,
                         body: plain.body().to_vec(),
                     })),
                 }
@@ -193,6 +195,7 @@ fn receive(dgram: &[u8], dcid_len: usize, rx: &Receiver) -> (Vec<Got>, Option<u8
             }
             DataHeader::Short(h) => {
                 let dcid = h.dcid().to_vec();
+                let spin = Some(u8::from(h.spin() != SpinBit::Zero));
                 let Some((hpk, pk)) = rx.ep.one.get_remote_keys().now_or_never().flatten() else {
                     out.push(Got::Dropped("nokeys"));
                     continue;
@@ -215,6 +218,7 @@ fn receive(dgram: &[u8], dcid_len: usize, rx: &Receiver) -> (Vec<Got>, Option<u8
                         token: Vec::new(),
                         pn: plain.pn(),
                         kp,
+                        spin,
                         body: plain.body().to_vec(),
                     })),
                 }
@@ -314,6 +318,7 @@ fn assemble_long(s: &LongSpec, keys: DirectionalKeys, pn: u64, epn: PacketNumber
             token: if s.sp == "initial" { s.token.to_vec() } else { Vec::new() },
             pn,
             kp: None,
+            spin: None,
             body: body[..body_used].to_vec(),
         },
         dgram: buf,
@@ -351,6 +356,7 @@ fn assemble_short(tx: &Endpoint, dcid: ConnectionId, pn: u64, epn: PacketNumber,
             token: Vec::new(),
             pn,
             kp: Some(u8::from(key_phase != KeyPhaseBit::Zero)),
+            spin: Some(0),
             body: body[..body_used].to_vec(),
         },
         dgram: buf,
@@ -369,6 +375,7 @@ struct Tally {
     nacc: u64,
     nident: u64,
     extra: u64,
+    nconn: u64,
     outcomes: BTreeMap<&'static str, u64>,
     bad: Vec<i64>,
     kp: Option<u8>,
@@ -399,7 +406,10 @@ fn present(t: &mut Tally, a: &Assembled, dgram: &[u8], rx: &Receiver, pos: i64) 
                 "accepted"
             }
             Got::Dropped(c) => c,
-            Got::ConnError => "conn_error",
+            Got::ConnError => {
+                t.nconn += 1;
+                "conn_error"
+            }
             Got::NonData(c) => c,
             Got::ParseErr(c) => c,
         };
@@ -423,7 +433,7 @@ fn present(t: &mut Tally, a: &Assembled, dgram: &[u8], rx: &Receiver, pos: i64) 
 
 fn rx_event(a: &Assembled, gen_: u64, tamper: &str, keys: &str, t: &Tally, reg: bool, rx: &Receiver) -> Value {
     let mut e = json!({"ev": "rx", "sp": a.want.sp, "gen": gen_, "pn": a.want.pn, "plen": a.plen, "tamper": tamper, "keys": keys,
-        "n": t.n, "nacc": t.nacc, "nident": t.nident, "extra": t.extra, "reg": reg,
+        "n": t.n, "nacc": t.nacc, "nident": t.nident, "extra": t.extra, "nconn": t.nconn, "reg": reg,
         "outcomes": t.outcomes, "bad": t.bad, "cur_phase": rx.cur_phase()});
     if t.n == 1 {
         e["kp"] = json!(t.kp.map(|k| k as i64).unwrap_or(-1));
